@@ -287,6 +287,8 @@ pub struct Run {
     pub assumptions: Mutex<Vec<String>>,
     pub notes: Mutex<Vec<String>>,
     pub inconclusive: Mutex<Vec<String>>,
+    /// shrink iterations per failing shard (lower it for expensive cases)
+    pub max_shrink: std::sync::atomic::AtomicU32,
 }
 
 fn salt(s: &str) -> u64 {
@@ -320,6 +322,7 @@ impl Run {
             assumptions: Mutex::new(Vec::new()),
             notes: Mutex::new(Vec::new()),
             inconclusive: Mutex::new(Vec::new()),
+            max_shrink: std::sync::atomic::AtomicU32::new(4000),
         }
     }
 
@@ -473,7 +476,7 @@ impl Run {
         let cfg = Config {
             cases,
             failure_persistence: None,
-            max_shrink_iters: 4000,
+            max_shrink_iters: self.max_shrink.load(Ordering::Relaxed),
             max_shrink_time: 0,
             max_local_rejects: 1_000_000,
             max_global_rejects: 1_000_000,
